@@ -146,6 +146,7 @@ class ForcePlatformsCalibrationDataBlock(Block):
             next_channel = i16.free_channel(self._platformMap)
             self._platformMap.append(next_channel)
         else:
+            i16.check_channel(channel)
             if channel in self._platformMap:
                 raise ValueError(f"channel {channel} already in use")
             self._platformMap.append(channel)
